@@ -184,6 +184,25 @@ def check(ctx):
             for j, (at_, loc_, what) in enumerate(dangling_uses(a_)):
                 ctx.ob("C18.P", "%s#dangling#%d" % (bd["key"], j), REFUTED, what, at=at_, cfg=cfg)
         ctx.ob("C18.P", "sweep (%s)" % cfg, n_sw >= 10, "bodies with raw pointer operations swept for accesses to storage-dead locals: %d" % n_sw, cfg=cfg)
+        # C18.H: the compile-time evaluator rejects an optimiser hint that is false (`assume called with false`, entering unreachable code), so in
+        # every safe const fn (private helpers expanded) each hint - assert_unchecked(c) / `if !c { unreachable_unchecked() }` - must be one the
+        # function's own path facts make true for every input; an unsafe const fn may rest its hints on its caller's contract
+        from ..rules import ub_hints, fstr as _fstr
+        from ..poly import prove as _prove, Poly as _Poly
+        n_h = n_cf = 0
+        for bd in db.bodies:
+            if not bd.get("const") or bd["kind"] not in ("Fn", "AssocFn") or ctx.is_helper(cfg, bd) or (bd.get("sig") or {}).get("unsafe"):
+                continue
+            n_cf += 1
+            if not any(t["term"]["k"] == "call" and t["term"]["f"].get("k") == "fn" and t["term"]["f"]["def"].startswith("core::hint::") for t in ctx.inlined(db, bd)["mir"]["blocks"]):
+                continue
+            a_ = ctx.analysis(cfg, bd["key"])
+            for j, (c_, bad_) in enumerate(ub_hints(a_)):
+                n_h += 1
+                inf = bad_ is not None and _prove((">=", _Poly.const(-1)), a_.poly_facts(bad_))
+                ctx.ob("C18.H", "%s#hint#%d" % (bd["key"], j), inf, "%s in a safe const fn: the facts under which the hint would be false (%s) are contradictory: %s" % (
+                    c_.fn.split("::")[-1], _fstr(bad_) if bad_ is not None else "condition not modelled", inf), at=c_.at or bd["at"], cfg=cfg, frozen=False)
+        ctx.ob("C18.H", "sweep (%s)" % cfg, n_cf >= 20, "safe const fns swept for optimiser hints (helpers expanded): %d; hint sites judged: %d" % (n_cf, n_h), cfg=cfg)
         # C18.M: write permission - the compile-time evaluator rejects a write through a pointer derived from a shared reference (and it is
         # undefined behaviour at run time): the mutable forms must derive their pointers from `&mut` all the way
         from ..rules import check_write_permission
